@@ -51,4 +51,13 @@ CHECKS = {
   "note": "Trusted: Coq kernel; CPython Fraction arithmetic; adapters. 'note followed only by continuations' and positivity of the pieces are "
           "checked on the implementation by the oracle, not proved.",
  },
+ "C20": {
+  "text": "Theorems: Note.__eq__, Tonality.__eq__, Melody.__eq__ (equality of printed code), Chord.__eq__ (dict equality of parts, any "
+          "order) and Score.__eq__ are reflexive, symmetric and transitive; equal notes have the same hashed tuple, equal tonalities the "
+          "same normal form, equal chords agree on every component of the hashed tuple; enharmonic spellings are equal. On the implementation "
+          "the oracle checks, on triples differing in single fields, the relation laws, copy/deepcopy equality, hash equality of equal objects, "
+          "set/dict interchangeability and NoteIn/ChordIn/TonalityIn masks. Three hash defects were repaired in /repo.",
+  "note": "Trusted: Coq kernel; Python hashes equal tuples/strings/frozensets equally; adapters. Score is unhashable (no hash clause). "
+          "Float dynamics thresholds are modelled in exact rationals and verified exhaustively over amplitudes 0..127 and the 9 constants.",
+ },
 }
